@@ -267,6 +267,7 @@ func (x *Exec) builtin(st *State, c *ast.CallExpr, name string) []Value {
 			return []Value{{T: card, Ty: intT}}
 		case *types.Basic:
 			if u.Info()&types.IsString != 0 {
+				x.strFacts(st, v.T)
 				return []Value{{T: x.strLen(v.T), Ty: intT}}
 			}
 		}
@@ -519,12 +520,25 @@ func (vc *VC) resolveCallee(fromPkg *Pkg, info *types.Info, fn *types.Func, recv
 		return nil
 	}
 	p := vc.ld.pkgs[origin.Pkg().Path()]
+	var cal *Callee
 	if p == nil {
-		return nil
-	}
-	cal := &Callee{fn: origin, pkg: p, key: contractKeyOf(origin), tparams: map[string]types.Type{}}
-	if p.Contracts != nil {
-		cal.ct = p.Contracts.Funcs[cal.key]
+		// function of a package that is not loaded from source (stdlib): a
+		// trusted contract may be given in the calling package's contract file
+		// under the key "pkg.Func"
+		if fromPkg == nil || fromPkg.Contracts == nil {
+			return nil
+		}
+		key := origin.Pkg().Name() + "." + origin.Name()
+		ct := fromPkg.Contracts.Funcs[key]
+		if ct == nil || !ct.Trusted {
+			return nil
+		}
+		cal = &Callee{fn: origin, pkg: fromPkg, key: key, ct: ct, tparams: map[string]types.Type{}}
+	} else {
+		cal = &Callee{fn: origin, pkg: p, key: contractKeyOf(origin), tparams: map[string]types.Type{}}
+		if p.Contracts != nil {
+			cal.ct = p.Contracts.Funcs[cal.key]
+		}
 	}
 	sig := fn.Type().(*types.Signature) // instantiated signature for methods of instantiated types
 	osig := origin.Type().(*types.Signature)
